@@ -165,7 +165,7 @@ let pr_trace (tr : ('v req * bool) list) (opn : string) (cls : string) =
   pr cls
 
 type 'v runner = { runp : 'a. nat -> fault list -> z option -> 'v bucket -> ('v, 'a) prog -> ('v bucket * 'a result) * ('v req * bool) list }
-let kvhist (type v) (cfg : v cfg) (rn : v runner) (vacuum_prog : (z list -> v handle -> z -> (v, v handle) prog) option)
+let kvhist (type v) (cfg : v cfg) (rn : v runner) (vacuum_prog : (z list -> v handle -> z -> (v, v handle * z option) prog) option)
     (rd_payload : unit -> v) (pr_payload : z -> v option -> unit) : unit =
   nm_reset ();
   let b = ref (empty_bucket : v bucket) in
@@ -186,8 +186,11 @@ let kvhist (type v) (cfg : v cfg) (rn : v runner) (vacuum_prog : (z list -> v ha
       else if nmt.[0] = '#' then Some (uncanon vn (int_of_string (String.sub nmt 1 (String.length nmt - 1))))
       else Some (uncanon nn (int_of_string (String.sub nmt 1 (String.length nmt - 1)))) in
     let occ = rd_z () in
-    let o = (match next () with "e" -> OErr | "g" -> OGone | s -> failwith ("bad_outcome_" ^ s)) in
-    { f_kind = kind; f_pfx = pf; f_name = name; f_occ = occ; f_out = o } in
+    let (o, sticky) = (match next () with
+      | "e" -> (OErr, false) | "g" -> (OGone, false)
+      | "E" -> (OErr, true) | "G" -> (OGone, true)       (* from that request on *)
+      | s -> failwith ("bad_outcome_" ^ s)) in
+    { f_kind = kind; f_pfx = pf; f_name = name; f_occ = occ; f_out = o; f_sticky = sticky } in
   let pr_cv (c : v cval) = pr_z c.md; pr_z c.tomb; pr_vname c.prev; pr_payload c.md c.payload in
   let nops = rd_int () in
   let opno = ref 0 in
@@ -288,10 +291,26 @@ let kvhist (type v) (cfg : v cfg) (rn : v runner) (vacuum_prog : (z list -> v ha
          | Some vp ->
              let (r, tr) = exec (vp corder (geth h) before) in
              (match r with
-              | Done h' -> seth h h'; pr "ok"
+              | Done (h', None) -> seth h h'; pr "ok"
+              | Done (h', Some _) -> seth h h'; pr "err"   (* committed, history deletion failed *)
               | Failed e when e = z_of_small 99 -> pr "panic"
               | _ -> pr "err");
              pr_trace tr "{" "}")
+    | "walk" ->
+        (* retained versions: under current/, or under merged/ and created after the cutoff *)
+        let before = rd_z () in
+        let bad = ref 0 in
+        let check n =
+          let ((_, r), _) = rn.runp big_fuel [] None !b (open0 cfg true (Some [n]) Z0 [] []) in
+          (match r with Done _ -> () | _ -> incr bad) in
+        Stdlib.List.iter (fun (n, _) -> check n) !b.b_cur;
+        Stdlib.List.iter (fun (n, o) ->
+          match o with
+          | OVer v -> (match v.v_created with
+                       | Some cr when Z.compare cr before <> Gt -> ()
+                       | _ -> check n)
+          | _ -> check n) !b.b_merged;
+        pr "W"; pr (string_of_int !bad)
     | "diff" ->
         let h = rd_int () in let h2 = rd_int () in
         let d = kv_diff cfg (geth h).h_tree (geth h2).h_tree in
@@ -308,7 +327,8 @@ let kvhist (type v) (cfg : v cfg) (rn : v runner) (vacuum_prog : (z list -> v ha
         let (r, _) = exec (open0 cfg true None (z_of_string "1700000000000000000") order []) in
         plan := saved_plan;
         (match r with
-         | Done hd -> pr "ok"; pr_list (fun (k, c) -> pr_sval k; pr_cv c) (kv_dump hd)
+         | Done hd -> pr "ok"; conflicts := Z.add !conflicts hd.h_conf;
+             pr_list (fun (k, c) -> pr_sval k; pr_cv c) (kv_dump hd)
          | Failed e when e = z_of_small 99 -> pr "panic"
          | _ -> pr "err")
     | "list" ->
